@@ -732,7 +732,7 @@ def oracle_cases(ctx, deep):
     # evaluated on every run so that the KNOWN-FINDING line is always printed
     cases.append({'decoder': 'UnionFindDecoder', 'code': 'Toric2DCode', 'size': [2, 2],
                   'direction': [0.25, 0.25, 0.5], 'p': 0.125, 'errors': [[[0], []]], 'kind': 'corpus-D15'})
-    # corpus: smallest witness of known finding D16 (XCube matching on a lattice that is not Lx <= Ly <= Lz)
+    # corpus: witness of the former defect D16 (XCube matching on a lattice that is not Lx <= Ly <= Lz), fixed 869642d
     cases.append({'decoder': 'XCubeMatchingDecoder', 'code': 'XCubeCode', 'size': [3, 2, 2],
                   'direction': [0.25, 0.25, 0.5], 'p': 0.125, 'errors': [[[0], []]], 'kind': 'corpus-D16'})
     # exhaustive syndromes on tiny codes: one representative error per syndrome
@@ -764,6 +764,21 @@ def oracle_cases(ctx, deep):
         errs += [[[int(q)], []] for q in range(code.n)] + [[[], [int(q)]] for q in range(code.n)] + [[[], []]]
         cases.append({'decoder': 'UnionFindDecoder', 'code': 'Toric2DCode', 'size': list(size),
                       'direction': [0.25, 0.25, 0.5], 'p': 0.125, 'errors': errs, 'kind': 'uf-side>=3'})
+    # deep search only: dense syndromes on larger 2-D lattices (chained cluster merges in union-find,
+    # long matchings) -- the regime no small lattice reaches
+    if deep:
+        for cname, size in [('Toric2DCode', (7, 7)), ('Toric2DCode', (6, 9)), ('Toric2DCode', (8, 8)),
+                            ('Planar2DCode', (7, 7)), ('RotatedPlanar2DCode', (9, 8))]:
+            code = make_code(cname, size)
+            em = make_noise((0.5, 0.25, 0.25))
+            for dname in COMPLETE:
+                if cname not in (DECODERS[dname].allowed_codes or list(CODES)):
+                    continue
+                k = 160 if dname == 'UnionFindDecoder' else 40
+                errs = [supports(e, code.n) for e in random_errors(code, em, rng, k, rates=(0.12, 0.16, 0.2))]
+                kw = {'max_bp_iter': 10, 'osd_order': 0} if dname == 'BeliefPropagationOSDDecoder' else None
+                cases.append({'decoder': dname, 'code': cname, 'size': list(size), 'direction': [0.5, 0.25, 0.25],
+                              'p': 0.125, 'kwargs': kw, 'errors': errs, 'kind': 'dense-large'})
     # all decoders x allowed codes
     for dname, cname in allowed_pairs():
         slow = dname in ('MemoryBeliefPropagationDecoder', 'XCubeMatchingDecoder')
